@@ -66,6 +66,17 @@ kind_of_msg(const char *m)
     if (PFX("Invalid union value") || PFX("Invalid LYB union value - no matching")) return "NoMember";
     if (PFX("Invalid LYB union")) return "LybSize";
     if (PFX("Unsatisfied pattern")) return "Pattern";
+    if (PFX("Invalid date-and-time month")) return "DtMonth";
+    if (PFX("Invalid date-and-time day of month")) return "DtDay";
+    if (PFX("Invalid date-and-time hours")) return "DtHour";
+    if (PFX("Invalid date-and-time minutes")) return "DtMinute";
+    if (PFX("Invalid date-and-time seconds")) return "DtSecond";
+    if (PFX("Missing date-and-time fractions")) return "DtFraction";
+    if (PFX("Invalid date-and-time timezone hour")) return "DtZoneHour";
+    if (PFX("Invalid date-and-time timezone minutes")) return "DtZoneMinute";
+    if (PFX("Invalid argument strlen(value) > 18")) return "DtShort";
+    if (PFX("Invalid LYB date-and-time character")) return "DtLybChar";
+    if (PFX("UTF-8 error")) return "PcreUtf8";
     if (PFX("Invalid empty identityref")) return "Empty";
     if (PFX("Invalid identityref")) {
         if (HAS("unable to map prefix")) return "NoPrefix";
